@@ -685,6 +685,13 @@ class RequestHandler:
             ("domain", domain),
             ("path", path),
             ("samesite", samesite),
+            # The deprecated mixed-case keyword arguments set the same attributes.
+            # (The cookie library quotes the comment attribute itself.)
+            *[
+                (k, v)
+                for k, v in kwargs.items()
+                if isinstance(v, str) and k.lower() != "comment"
+            ],
         ]:
             # Cookie attributes may not contain control characters or semicolons (except when
             # escaped in the value). A check for control characters was added to the http.cookies
